@@ -446,7 +446,7 @@ static int _GD_UpdateAffixes(DIRFILE *D, int index, char *nsin, size_t nsl,
     ns[--nsl] = 0;
 
   /* Finish up the suffix */
-  if (P->sx)
+  if (sx && P->sx)
     memcpy(sx + sxl, P->sx, P->sxl + 1); /* including the trailing NUL */
 
   /* update the fragment itself, at the end */
